@@ -13,30 +13,38 @@ Proof.
   induction l as [|s l IH]; intros acc acc' H; cbn in H.
   - inversion H; subst. rewrite app_nil_r. reflexivity.
   - destruct (existsb (fun p => str_eqb (sp_name p) (sp_name s)) acc); [discriminate|].
-    destruct (existsb (fun p => str_eqb (sp_source p) (sp_source s)) acc); [discriminate|].
+    destruct (existsb (fun p => str_eqb (normalize_source (sp_source p)) (normalize_source (sp_source s))) acc); [discriminate|].
     apply IH in H. rewrite H, <- app_assoc. reflexivity.
 Qed.
 
+Definition nsrc (s : spec) : str := normalize_source (sp_source s).
+
 Lemma add_all_nodup_source : forall l acc acc',
-  add_all acc l = Ok acc' -> NoDup (map sp_source acc) -> NoDup (map sp_source acc').
+  add_all acc l = Ok acc' -> NoDup (map nsrc acc) -> NoDup (map nsrc acc').
 Proof.
   induction l as [|s l IH]; intros acc acc' H Hnd; cbn in H.
   - inversion H; subst. exact Hnd.
   - destruct (existsb (fun p => str_eqb (sp_name p) (sp_name s)) acc) eqn:E1; [discriminate|].
-    destruct (existsb (fun p => str_eqb (sp_source p) (sp_source s)) acc) eqn:E2; [discriminate|].
+    destruct (existsb (fun p => str_eqb (normalize_source (sp_source p)) (normalize_source (sp_source s))) acc) eqn:E2; [discriminate|].
     apply IH in H; [exact H|]. rewrite map_app. cbn.
     apply NoDup_app_intro_ls; [exact Hnd|].
     intros Hin. apply in_map_iff in Hin as (p & Hp & Hin).
-    assert (existsb (fun p => str_eqb (sp_source p) (sp_source s)) acc = true).
+    assert (existsb (fun p => str_eqb (normalize_source (sp_source p)) (normalize_source (sp_source s))) acc = true).
     { apply existsb_exists. exists p. split; [exact Hin|]. apply ls_str_eqb_eq. exact Hp. }
     congruence.
+Qed.
+
+Lemma nodup_map_comp {A B C} (f : B -> C) (g : A -> B) (l : list A) : NoDup (map (fun x => f (g x)) l) -> NoDup (map g l).
+Proof.
+  induction l as [|a l IH]; cbn; intros H; [constructor|]. inversion H as [|? ? Ha Hn]; subst. constructor; [|exact (IH Hn)].
+  intros Hin. apply Ha. apply in_map_iff in Hin as (y & Ey & Hy). apply in_map_iff. exists y. split; [rewrite Ey; reflexivity|exact Hy].
 Qed.
 
 Lemma add_all_not_panic : forall l acc why, add_all acc l <> Panic why.
 Proof.
   induction l as [|s l IH]; intros acc why; cbn; [discriminate|].
   destruct (existsb (fun p => str_eqb (sp_name p) (sp_name s)) acc); [discriminate|].
-  destruct (existsb (fun p => str_eqb (sp_source p) (sp_source s)) acc); [discriminate|].
+  destruct (existsb (fun p => str_eqb (normalize_source (sp_source p)) (normalize_source (sp_source s))) acc); [discriminate|].
   apply IH.
 Qed.
 
@@ -45,7 +53,7 @@ Lemma add_all_err : forall l acc e, add_all acc l = Err e -> e = E_DUP_NAME \/ e
 Proof.
   induction l as [|s l IH]; intros acc e H; cbn in H; [discriminate|].
   destruct (existsb (fun p => str_eqb (sp_name p) (sp_name s)) acc); [inversion H; auto|].
-  destruct (existsb (fun p => str_eqb (sp_source p) (sp_source s)) acc); [inversion H; auto|].
+  destruct (existsb (fun p => str_eqb (normalize_source (sp_source p)) (normalize_source (sp_source s))) acc); [inversion H; auto|].
   eapply IH; exact H.
 Qed.
 
@@ -61,7 +69,7 @@ Proof.
 Qed.
 
 Lemma discover_roots_nodup_source tree : forall roots acc acc',
-  discover_roots tree acc roots = Ok acc' -> NoDup (map sp_source acc) -> NoDup (map sp_source acc').
+  discover_roots tree acc roots = Ok acc' -> NoDup (map nsrc acc) -> NoDup (map nsrc acc').
 Proof.
   induction roots as [|r roots IH]; intros acc acc' H Hnd; cbn in H.
   - inversion H; subst. exact Hnd.
@@ -96,7 +104,7 @@ Theorem discover_ok_all_distinct : forall tree roots specs,
   discover tree roots = Ok specs ->
   Permutation (raw_discovered tree roots) specs /\
   NoDup (map sp_name (raw_discovered tree roots)) /\
-  NoDup (map sp_source (raw_discovered tree roots)).
+  NoDup (map (fun s => normalize_source (sp_source s)) (raw_discovered tree roots)).
 Proof.
   intros tree roots specs. unfold discover.
   destruct (resolve_roots tree [] roots); [|discriminate].
@@ -104,7 +112,21 @@ Proof.
   pose proof (discover_roots_app _ _ _ _ E) as Hl. cbn in Hl. subst l.
   split; [apply sort_by_name_perm|]. split.
   - eapply discover_roots_nodup; [exact E|constructor].
-  - eapply discover_roots_nodup_source; [exact E|constructor].
+  - change (NoDup (map nsrc (raw_discovered tree roots))). eapply discover_roots_nodup_source; [exact E|constructor].
+Qed.
+
+(** sources as planPrune keys them (a final ".git" component dropped) are pairwise distinct, hence the sources too *)
+Theorem discover_ok_distinct_sources : forall tree roots specs,
+  discover tree roots = Ok specs -> NoDup (map (fun s => normalize_source (sp_source s)) specs).
+Proof.
+  intros tree roots specs H. destruct (discover_ok_all_distinct _ _ _ H) as (Hp & _ & Hn).
+  eapply Permutation_NoDup; [apply Permutation_map; exact Hp|exact Hn].
+Qed.
+
+Theorem discover_ok_distinct_raw_sources : forall tree roots specs,
+  discover tree roots = Ok specs -> NoDup (map sp_source specs).
+Proof.
+  intros tree roots specs H. apply (nodup_map_comp normalize_source sp_source). exact (discover_ok_distinct_sources _ _ _ H).
 Qed.
 
 Lemma discover_not_panic tree roots why : discover tree roots <> Panic why.
@@ -153,13 +175,13 @@ Qed.
 (** the same for one directory reached twice (overlapping roots) *)
 Theorem any_source_collision_fails : forall tree roots l1 s1 l2 s2 l3,
   raw_discovered tree roots = l1 ++ s1 :: l2 ++ s2 :: l3 ->
-  sp_source s1 = sp_source s2 ->
+  normalize_source (sp_source s1) = normalize_source (sp_source s2) ->
   exists e, discover tree roots = Err e /\ (e = E_DUP_NAME \/ e = E_DUP_SOURCE \/ e = E_ROOT).
 Proof.
   intros tree roots l1 s1 l2 s2 l3 Hraw Hsrc.
   destruct (discover tree roots) as [specs|e|e] eqn:Ed.
   - exfalso. destruct (discover_ok_all_distinct _ _ _ Ed) as (_ & _ & Hnd).
-    rewrite Hraw in Hnd. exact (nodup_split_neq sp_source _ _ _ _ _ Hnd Hsrc).
+    rewrite Hraw in Hnd. exact (nodup_split_neq (fun s => normalize_source (sp_source s)) _ _ _ _ _ Hnd Hsrc).
   - exists e. split; [reflexivity|]. apply (discover_err_codes _ _ _ Ed).
   - exfalso. exact (discover_not_panic _ _ _ Ed).
 Qed.
